@@ -30,7 +30,7 @@ ASSUMPTIONS = [
 ]
 MUST_SEE = ["false_vs_bool", "bool_vs_int", "bool_vs_int_union", "bool_in_int_tuple", "fixed_tuple_too_long", "fixed_tuple_too_short", "multi_two_bad", "noninit_bad_default", "switch_off_same_node", "nonconforming", "conforming", "noncompare_fields_checked"]
 CONFIG = {
-    "quick": {"shards": 16, "d2_sample": 25, "multi": 40, "watchdog_s": 600},
+    "quick": {"shards": 16, "d2_sample": 150, "multi": 300, "watchdog_s": 600},
     "thorough": {"shards": 32, "d2_sample": 400, "multi": 600, "watchdog_s": 3400},
 }
 
